@@ -56,6 +56,8 @@ def lifecycle_clauses(case, d):
         if s not in ("idle",) and i not in doubled:
             bad.append("not-exited-when-do-returned" if s in ("live", "closing") else "malformed")
     r = d["raised"]
+    if r in ("cancelled", "closed") and S.extras_of(case, "cancel"):
+        r = "-"
     if r.startswith("other:"):
         bad.append("unexpected-exception-from-do:" + r.split(":")[-1])
     elif r in ("kbint", "sysexit"):
@@ -92,7 +94,7 @@ class C01(S.SchedCheck):
             "+ regression corpus (F01-F07) + thorough: exhaustive single-fault scope.  non-trivial = >=12 events and (do() raised or a forced close / remove / extend happened); distinct by request line")
 
     def corpus(self):
-        return list(S.CORPUS) + list(S.CORPUS_SELFRM) + list(S.CORPUS_BEXC) + list(S.CORPUS_R2)
+        return list(S.CORPUS) + list(S.CORPUS_SELFRM) + list(S.CORPUS_BEXC) + list(S.CORPUS_R2) + list(S.CORPUS_ENTERLOOP)
 
     def exhaustive(self, tier):
         if tier != "thorough":
@@ -102,7 +104,7 @@ class C01(S.SchedCheck):
     def oracle(self, case, obs):
         return lifecycle_clauses(case, obs.d)
 
-    profiles = ("mixed", "ops", "faults", "time", "selfrm", "bexc", "closeops", "benter", "actfault", "xext", "lastop")
+    profiles = ("mixed", "ops", "faults", "time", "selfrm", "bexc", "closeops", "benter", "actfault", "xext", "lastop", "superv", "oddtock", "cancel")
 
     def known(self, case, obs, clauses):
         # C01-K1 (pre-finding F01): KeyboardInterrupt raised by a doer -> neither clean, cease nor abort runs for it
